@@ -57,6 +57,14 @@ CHECKS["C06"] = dict(
          "assembler's source spellings (both cases, synonyms) reaches the Intel predicate of that spelling; taken => JMP(label.map), else NEXT.",
     design="DESIGN.md §6 C06")
 
+CHECKS["C07"] = dict(
+    technique="abstract interpretation of MIR with DF specialisation and affine address/pointer forms; memory-access and subtraction events classified by pointer dependency; production-level REP protocol with CX classes and ZF partitioning; CFG rule on the driver's REPEAT arm",
+    text="Decides: source element at DS:SI and destination element at ES:DI (exact forms, required segment dependency); SI/DI step +/-size mod 2^16 "
+         "under DF; word elements use cells p,p+1 in both directions; who may write memory/AL,AX/flags; CMPS/SCAS operand roles; REP protocol (nothing "
+         "executes with CX=0, CX-1 and REPEAT otherwise, ZF test of REPE/REPNE); driver re-issues the same index on REPEAT. Does NOT decide the comparison's "
+         "flag values (C01's limitation) nor overlapping source/destination.",
+    design="DESIGN.md §6 C07")
+
 NOT_YET = {}
 
 
